@@ -294,8 +294,13 @@ def _run_case_inner(ctx, case):
             others = [j for j in range(n) if j != creator]
             ext = [others[(case['creator'] + z_) % len(others)] for z_ in range(min(case['ext_keys'], len(others)))]
             ext = sorted(set(ext), key=ext.index)
+            handed = [hks[j] for j in ext]
+            if case.get('ext_repeat'):
+                # the list also names a cosigner who has signed already (the creator): the others still sign
+                handed = [hks[creator]] + handed
+                flags.add('external_master_keys_with_one_who_signed')
             try:
-                t.sign([hks[j] for j in ext])
+                t.sign(handed)
             except Exception as e:
                 bad('sign.raises', 'sign() with the master keys of cosigners %r raised %r' % (ext, e))
             for s_ in signed:
@@ -630,7 +635,7 @@ def _strategy(ctx):
                 'post_edit': draw(st.sampled_from([None, 'sign_replace', 'sign_and_update', 'sign'])),
                 'post_resign': draw(st.booleans()),
                 'special_r': draw(st.sampled_from([None, None, 0, 1, 2, 3, 4, 6, 8, 10])),
-                'bulk': draw(st.sampled_from([0, 0, 2, 3])), 'ext_keys': draw(st.sampled_from([0, 0, 0, 1, 2, 3])), 'explicit_paths': draw(st.sampled_from([[], [], [[1, 4]], [[0, 2], [1, 1]], [[1, 4], [0, 3]]])), 'bulk_change': draw(st.sampled_from([0, 0, 1])), 'creator': draw(st.integers(0, n - 1)), 'handoffs': handoffs,
+                'bulk': draw(st.sampled_from([0, 0, 2, 3])), 'ext_keys': draw(st.sampled_from([0, 0, 0, 1, 2, 3])), 'ext_repeat': draw(st.booleans()), 'explicit_paths': draw(st.sampled_from([[], [], [[1, 4]], [[0, 2], [1, 1]], [[1, 4], [0, 3]]])), 'bulk_change': draw(st.sampled_from([0, 0, 1])), 'creator': draw(st.integers(0, n - 1)), 'handoffs': handoffs,
                 'rng': draw(st.integers(0, 2 ** 31))}
     return cases()
 
